@@ -642,15 +642,17 @@ def execStmt (w : World τ) (a : ActId) (fs : List (Frame τ)) : Stmt τ → Wor
     match lookup w.scopeNames scope with
     | none => w.retTo a fs .unit
     | some sid =>
-      let tid := w.tasks.size
-      let dc := w.conds.size
-      let (w, _) := w.newCond (.done tid false (dc + 1))
-      let (w, _) := w.newCond (.notDone dc)
-      let (w, r) := w.newAct [.taskStart tid none none prog, .coroutineEnd] true (idx : Int)
-      let tk : Task := { runner := r, parent := sid, volatile := false, done := dc, quiet := true }
-      let w := { w with tasks := w.tasks.push tk }
-      let w := w.scheduleNow r none
-      (w.setScope sid (fun x => { x with children := x.children ++ [tid] })).retTo a fs .unit
+      if !(w.scope sid).interruptable then w.raiseNew a fs .scopeClosed   -- `Scope.do` (context.py:173)
+      else
+        let tid := w.tasks.size
+        let dc := w.conds.size
+        let (w, _) := w.newCond (.done tid false (dc + 1))
+        let (w, _) := w.newCond (.notDone dc)
+        let (w, r) := w.newAct [.taskStart tid none none prog, .coroutineEnd] true (idx : Int)
+        let tk : Task := { runner := r, parent := sid, volatile := false, done := dc, quiet := true }
+        let w := { w with tasks := w.tasks.push tk }
+        let w := w.scheduleNow r none
+        (w.setScope sid (fun x => { x with children := x.children ++ [tid] })).retTo a fs .unit
   | .cancel task tok =>                                                -- task.py Task.cancel
     match lookup w.taskNames task with
     | none => (w.emit a "unbound" []).retTo a fs .unit
@@ -1088,9 +1090,11 @@ def stepRet (w : World τ) (a : ActId) (f : Frame τ) (fs : List (Frame τ)) (v 
   | .firstMonitor q =>                                                 -- `await queue.put(result)`
     let w := w.emit a "tfin" [0]
     let qu := w.queues.getD q default
-    let w := { w with queues := w.queues.modify q (fun x => { x with buffer := x.buffer ++ [valInt v] }) }
-    let (w, _) := w.awakeNext qu.notif
-    w.doPostpone a fs
+    if qu.closed then w.raiseNew a fs .streamClosed                    -- `Queue.put` (streams.py): refused when closed
+    else
+      let w := { w with queues := w.queues.modify q (fun x => { x with buffer := x.buffer ++ [valInt v] }) }
+      let (w, _) := w.awakeNext qu.notif
+      w.doPostpone a fs
   | .firstNext q rem brk body =>
     -- `islice`: after `count` results (or at once for `count == 0`) the iteration is over
     if rem == 0 then w.retTo a fs .unit
